@@ -2,5 +2,5 @@ INIT Init
 NEXT Next
 CONSTANTS
   Depth = 2
-  Shapes = {0, 2, 4}
+  Shapes = {0, 2, 4, 7}
 INVARIANTS DesignOK EmitVec
